@@ -522,6 +522,7 @@ def run(ctx):
     implicit_enumerators(ctx)
     literal_narrowing(ctx)
     cast_width(ctx)
+    trait_productions(ctx)
 
     # ------------------------------------------------------------ R07.6
     n_c = 0
@@ -993,3 +994,34 @@ def cast_width(ctx):
                    "`%s` is %sreached only when the target is not short (F_short tested false)" % (show(r)[:50], "" if seen_short else "NOT "))
     ctx.floor("R07.12", "integer returns of the cast arm", n, 2)
 
+
+
+def trait_productions(ctx):
+    """R07.13: a compiler intrinsic `__is_X(T[, U])` is turned into CPPExpression::type_trait(<token>, T[, U]); evaluate()
+    and output() switch on that token.  The token handed over must be the production's own keyword and every operand of
+    the production must be handed over, or the constant is computed (and printed) for another trait.  (F-C07j:
+    `__is_base_of(A, B)` was built as type_trait(KW_IS_CLASS, A, B).)"""
+    import re
+    db = ctx.db
+    ctx.rule("R07.13", "every grammar alternative `KW_X '(' full_type [',' full_type] ')'` that builds a type trait passes KW_X itself and all of its full_type operands ($3[, $5]) to CPPExpression::type_trait()")
+    g = GR.Grammar(db.meta["grammar"])
+    n = 0
+    for nt, alts in g.rules.items():
+        for a in alts:
+            act = a.action or ""
+            m = re.search(r"type_trait\(\s*(\w+)\s*((?:,\s*\$\d+\s*)*)\)", act)
+            if not m:
+                continue
+            syms = [x for x in a.syms if x != "@action"]
+            kws = [x for x in syms if x.startswith("KW_")]
+            n += 1
+            site = "src/cppparser/cppBison.yxx:%d" % a.line
+            inst = "%s|%s" % (nt, "_".join(syms))
+            want_args = ["$%d" % (i + 1) for i, x in enumerate(syms) if x == "full_type"]
+            got_args = re.findall(r"\$\d+", m.group(2))
+            ok = len(kws) == 1 and m.group(1) == kws[0] and got_args == want_args
+            ctx.ob("R07.13", inst, ok, site, "`%s` builds type_trait(%s%s); its keyword is %s and its operands are %s" % (" ".join(syms), m.group(1), m.group(2), kws, want_args))
+    ctx.floor("R07.13", "type-trait productions", n, 18)
+    # the reader agrees with the compiled parser
+    calls = sum(1 for f in db.functions if f.file.endswith("cppBison.cxx") for c in f.walk() if c.get("k") == "call" and callee_short(c) == "type_trait")
+    ctx.ob("R07.13", "type-trait-productions|reader-agrees-with-compiler", calls == n, "src/cppparser/cppBison.yxx", "%d productions read from the grammar, %d type_trait() calls in the generated parser" % (n, calls))
